@@ -149,3 +149,35 @@
 (define-fun clwf ((c CL)) Bool (and (spwf (clhd c)) (=> ((_ is CLRule) c) (wfpe (clbody c)))))
 (define-fun clbodyof ((c CL) (n Int)) Body (ite ((_ is CLRule) c) (pebody (clbody c) (+ n (spcnt (clhd c)))) BTrue))
 (define-fun clcnt ((c CL)) Int (+ (spcnt (clhd c)) (ite ((_ is CLRule) c) (pecnt (clbody c)) 0)))
+
+; ---- programs (C01 clause order, C11 exactly the program's predicates) ------------------------
+(declare-datatypes ((CD 0)) (((CDClause (cdcl CL)) (CDDir (cddir SP)))))       ; clauseordirective: clause | ':-' simplepredicate '.'
+(declare-datatypes ((CA 0)) (((mkCA (cahead Body) (cabody Body)))))            ; Clause(head, body)
+(define-fun cdcnt ((d CD)) Int (ite ((_ is CDClause) d) (clcnt (cdcl d)) (spcnt (cddir d))))
+(define-fun cdwf ((d CD)) Bool (ite ((_ is CDClause) d) (clwf (cdcl d)) (spwf (cddir d))))
+(define-fun caof ((c CL) (n Int)) CA (mkCA (spbody (clhd c) n) (clbodyof c n)))
+; the dictionary key of a clause: name and number of arguments of its head
+(define-fun cakey ((a CA)) PK (mkPK (tafname (predta (pid (cahead a)))) (talen (tafargs (predta (pid (cahead a)))))))
+; number of `_` seen before item k (directives are visited too)
+(define-fun-rec pgavc ((p (Seq CD)) (k Int) (n Int)) Int
+  (ite (<= k 0) n (+ (pgavc p (- k 1) n) (cdcnt (seq.nth p (- k 1))))))
+; the clause AST of item j
+(define-fun pgca ((p (Seq CD)) (j Int) (n Int)) CA (caof (cdcl (seq.nth p j)) (pgavc p j n)))
+; the program dictionary after the first k items: keys in first-occurrence order, and per key the clauses with that key
+; in source order (the definition a predicate's clause order rests on)
+(define-fun-rec pgkeys ((p (Seq CD)) (k Int) (n Int)) (Seq PK)
+  (ite (<= k 0) (as seq.empty (Seq PK))
+       (ite (and ((_ is CDClause) (seq.nth p (- k 1))) (not (seq.contains (pgkeys p (- k 1) n) (seq.unit (cakey (pgca p (- k 1) n))))))
+            (seq.++ (pgkeys p (- k 1) n) (seq.unit (cakey (pgca p (- k 1) n))))
+            (pgkeys p (- k 1) n))))
+(define-fun-rec pgvals ((p (Seq CD)) (k Int) (n Int)) (Array PK (Seq CA))
+  (ite (<= k 0) ((as const (Array PK (Seq CA))) (as seq.empty (Seq CA)))
+       (ite ((_ is CDClause) (seq.nth p (- k 1)))
+            (store (pgvals p (- k 1) n) (cakey (pgca p (- k 1) n))
+                   (seq.++ (select (pgvals p (- k 1) n) (cakey (pgca p (- k 1) n))) (seq.unit (pgca p (- k 1) n))))
+            (pgvals p (- k 1) n))))
+; "no key occurs twice", as the inductive predicate generated by: the empty sequence; s ++ [x] when x does not occur in s
+(declare-fun nodup ((Seq PK)) Bool)
+(assert (nodup (as seq.empty (Seq PK))))
+(assert (forall ((s (Seq PK)) (x PK)) (! (=> (and (nodup s) (not (seq.contains s (seq.unit x)))) (nodup (seq.++ s (seq.unit x))))
+                                         :pattern ((nodup (seq.++ s (seq.unit x)))))))
